@@ -648,4 +648,10 @@ def targets(tier='quick'):
         t.prop = PROP
         t.keep = lambda name: name != 'cell/triangle[time_1 != 0]'
         T.append(t)
+    # what the API object hands to the back end (its own influence closure, the bath's transform, memory settings, ...)
+    from . import prep
+    T += [t for t in prep.targets(PROP, rp) if 'MeanField' not in t.name]
+    # the compression sweeps: truncation parameters reach every SVD, nothing else changes the network
+    from . import nasvd
+    T += nasvd.targets(PROP, 'svd_sweep_parameters')
     return T
